@@ -113,11 +113,11 @@ func (a *baseAction) evaluateMessage(run flows.Run, languages []i18n.Language, a
 	// although it's possible for the different parts of the message to have different languages, we want to resolve
 	// a single language based on what the user actually provided for this message
 	var lang i18n.Language
-	if localizedText[0] != "" {
+	if evaluatedText != "" {
 		lang = txtLang
-	} else if len(translatedAttachments) > 0 {
+	} else if len(evaluatedAttachments) > 0 {
 		lang = attLang
-	} else if len(translatedQuickReplies) > 0 {
+	} else if len(evaluatedQuickReplies) > 0 {
 		lang = qrsLang
 	}
 
